@@ -117,6 +117,59 @@ fn run_construct(dims: &[usize], vals: &[f64]) -> Result<(), (String, String)> {
         let nst = guarded(|| nested(dims, vals, use_macro)).map_err(|p| e("unexpected-panic:nested", format!("nested construction ({}) of dims {:?} panicked: {}", tag, dims, p)))?;
         check_layout(tag, &nst, dims, vals).map_err(|d| e("layout:nested", d))?;
     }
+    // nested construction from parts whose buffers are SHARED with other live handles (clones, reshaped views,
+    // arrays recorded in a graph) in every position pattern: the result must be the same rows in the same order
+    if dims.len() >= 2 {
+        let chunk = numel(&dims[1..]);
+        for pattern in 1..8u32 {
+            let built = guarded(|| {
+                let mut keep: Vec<Array> = vec![];
+                let parts: Vec<Array> = vals
+                    .chunks(chunk)
+                    .enumerate()
+                    .map(|(k, c)| {
+                        let p = arr(&dims[1..], c);
+                        let shared = match pattern {
+                            1 => k == 0,
+                            2 => k + 1 == dims[0],
+                            3 => k % 2 == 0,
+                            4 => k % 2 == 1,
+                            5 => true,
+                            6 => k == 0,
+                            _ => k > 0,
+                        };
+                        if !shared {
+                            return p;
+                        }
+                        match pattern {
+                            // a reshaped view of a flat array stays alive
+                            6 => {
+                                let flat = arr(&[c.len()], c);
+                                let v = flat.reshape(dims[1..].to_vec());
+                                keep.push(flat);
+                                v
+                            }
+                            // the part is recorded in a live graph
+                            7 => {
+                                let t = p.tracked();
+                                keep.push(&t * 2.0);
+                                t
+                            }
+                            _ => {
+                                keep.push(p.clone());
+                                p
+                            }
+                        }
+                    })
+                    .collect();
+                let a = Array::from(parts);
+                drop(keep);
+                a
+            })
+            .map_err(|p| e("unexpected-panic:nested", format!("nested construction with shared parts (pattern {}) of dims {:?} panicked: {}", pattern, dims, p)))?;
+            check_layout(&format!("From<Vec<Array>> with shared parts (pattern {})", pattern), &built, dims, vals).map_err(|d| e("layout:nested-shared", d))?;
+        }
+    }
     // indexing: every full multi-index and every flat index
     for flat in 0..n {
         let idx = unravel(flat, dims);
